@@ -156,6 +156,27 @@ class C14(HttpProp):
         sizes_b = [65535, 65536, 65537, 131072, 262143, 262144, 262145, 300000, 524289, 1048577, 2097153, 4194305, 8388609]
         if tier == "thorough":
             sizes_b += [16777217, 33554433, 67108865, 104857600]
+        # the FIRST request ever made for a client id is an upload that is refused (empty, broken off, too
+        # long, wrong type): the server has still never seen the client, and says so on every endpoint
+        for j, bad in enumerate([("history", "e"), ("history", "brk:5"), ("history", "brk:3,4"), ("other", "b:5"), ("history", "e1"), ("snapshot", "b:5")]):
+            c = 7
+            ops = ["http POST av hyph=nil hyph=1 history b:1", f"http POST av hyph=nil hyph={c} {bad[0]} {bad[1]}",
+                   f"http POST as hyph=nil hyph={c} snapshot b:2", f"http POST as hyph=latest:1 hyph={c} snapshot b:3",
+                   f"http GET gcv hyph=nil hyph={c} absent e", f"http GET snap - hyph={c} absent e",
+                   f"http POST av hyph=fresh hyph={c} history b:4", f"http POST as hyph=latest:{c} hyph={c} snapshot b:5", f"http GET snap - hyph={c} absent e"]
+            out.append(Case(f"c14-firstrefused-{j}", ops, mode="http"))
+        # through the real executable (whatever main() wraps around the application is in the path)
+        for j in range(sizes(tier, 3, 16)):
+            g = HttpGen(rng, 2, explicit_only=True)
+            ops = ["boot listen=flag:1 dir=flag allow=none versions=default days=default"]
+            for _ in range(rng.randint(15, 40)):
+                for line in g.op():
+                    if line.startswith("http "):
+                        ops.append("http@0 " + line[5:])
+                    elif line.startswith(("backdate", "setcounter")):
+                        ops.append(line)
+            ops.append("kill")
+            out.append(Case(f"c14-bin-{j}", ops, {"only": "sqlite", "bin": True, "big": True}, mode="bin"))
         for j, nb in enumerate(sizes_b):
             kch = [1, 3, 2][j % 3]
             ops = ["http POST av hyph=nil hyph=1 history b:1", f"http POST av hyph=latest:1 hyph=1 history big:{nb}:{kch}",
@@ -167,6 +188,20 @@ class C14(HttpProp):
         if not case.meta.get("big"):
             return []
         fails = []
+        if case.meta.get("bin"):
+            # the table, applied to what came over the socket
+            for i, (o, ri, rm) in enumerate(trace):
+                if o.startswith("http ") and HOp(o).valid():
+                    r, h = HResp(ri), HOp(o)
+                    if r.status == 409 and not r.xp.isdigit():
+                        fails.append(f"{backend}: request #{i} `{o[:50]}`: 409 without X-Parent-Version-Id naming the latest version (`{ri.split(' | ')[0]}`)")
+                    if h.route == "av" and r.status == 200 and not r.xv.isdigit():
+                        fails.append(f"{backend}: request #{i}: accepted version without X-Version-Id")
+                    if h.route == "gcv" and r.status == 200 and (not r.xv.isdigit() or r.xp == "-" or r.ct != "history"):
+                        fails.append(f"{backend}: request #{i}: found child without both id headers and the history-segment content type (`{ri.split(' | ')[0]}`)")
+                    if h.route == "snap" and r.status == 200 and (not r.xv.isdigit() or r.ct != "snapshot"):
+                        fails.append(f"{backend}: request #{i}: snapshot without X-Version-Id / the snapshot content type")
+            return fails
         for i, (o, ri, rm) in enumerate(trace):
             if o.startswith("http "):
                 r = HResp(ri)
@@ -260,7 +295,8 @@ class C14(HttpProp):
 # ------------------------------------------------------------------ request grid (C15, C20)
 def grid_requests(rng, tier, client=1):
     """grammar-generated requests: route x method x client-id form x path-id form x content-type x body class"""
-    routes = ["index", "av", "gcv", "as", "snap", "unknown1", "unknown2", "unknown3", "unknown4", "avq", "gcvq", "asq", "snapq"]
+    routes = ["index", "av", "gcv", "as", "snap", "unknown1", "unknown2", "unknown3", "unknown4", "avq", "gcvq", "asq", "snapq",
+              "avp", "gcvp", "asp", "snapp"]
     methods = ["GET", "POST", "PUT", "DELETE", "HEAD", "PATCH", "GET/1.0", "POST/1.0", "OPTIONS"]
     cids = ["absent"] + [f"{f}={client}" for f in BAD_CID_FORMS] + [f"{f}={client}" for f in ("hyph", "upper", "simple", "braced", "urn")] + ["hyph=fresh"]
     segs = [f"{f}=latest:{client}" for f in BAD_ID_FORMS] + [f"{f}=latest:{client}" for f in ("hyph", "upper", "simple", "braced", "urn")] + ["hyph=nil", "hyph=fresh"]
@@ -272,7 +308,7 @@ def grid_requests(rng, tier, client=1):
     for route in routes:
         for m in methods:
             for cid in cids:
-                for seg in (segs if route in ("av", "gcv", "as", "unknown2", "avq", "gcvq", "asq") else ["-"]):
+                for seg in (segs if route in ("av", "gcv", "as", "unknown2", "avq", "gcvq", "asq", "avp", "gcvp", "asp") else ["-"]):
                     for ct in cts:
                         for body in bodies:
                             reqs.append(f"http {m} {route} {seg} {cid} {ct} {body}")
@@ -282,8 +318,8 @@ def grid_requests(rng, tier, client=1):
         keep = reqs[:1500]
         for route in routes:
             for m in methods:
-                seg = f"hyph=latest:{client}" if route in ("av", "gcv", "as", "unknown2", "avq", "gcvq", "asq") else "-"
-                ct = "history" if route in ("av", "avq") else ("snapshot" if route in ("as", "asq") else "absent")
+                seg = f"hyph=latest:{client}" if route in ("av", "gcv", "as", "unknown2", "avq", "gcvq", "asq", "avp", "gcvp", "asp") else "-"
+                ct = "history" if route in ("av", "avq", "avp") else ("snapshot" if route in ("as", "asq", "asp") else "absent")
                 keep.append(f"http {m} {route} {seg} hyph={client} {ct} b:5")
         for cid in cids:
             for route, m, ct in (("av", "POST", "history"), ("gcv", "GET", "absent"), ("as", "POST", "snapshot"), ("snap", "GET", "absent")):
@@ -353,6 +389,20 @@ class C15(HttpProp):
             for r in reqs[k:k + per]:
                 ops += ["dumpall", "rows", r, "dumpall", "rows"]
             out.append(Case(f"c15-{k // per}", ops, mode="http"))
+        # a long-lived server: dozens of uploads refused while their body was being read (broken off, empty
+        # chunks only), on both upload endpoints — then ordinary requests are served as ever
+        for k in range(sizes(tier, 2, 8)):
+            r = random.Random(rng.getrandbits(32))
+            ops = state_prefix(r)
+            for j in range(r.randint(18, 40)):
+                rt, ct = r.choice([("av", "history"), ("as", "snapshot")])
+                rq = f"http POST {rt} hyph=latest:1 hyph={r.choice([1, 2])} {ct} {r.choice(['brk:5', 'brk:1,1', 'brk:30,40', 'e1', 'e'])}"
+                ops += (["dumpall", "rows", rq, "dumpall", "rows"] if j % 6 == 0 else [rq])
+            for c in (1, 2):
+                ops += ["dumpall", "rows", f"http POST av hyph=latest:{c} hyph={c} history b:5,{c}", "dumpall", "rows",
+                        f"http POST as hyph=latest:{c} hyph={c} snapshot chunks:3,4", f"http GET snap - hyph={c} absent e",
+                        "dumpall", "rows", f"http POST av hyph=nil hyph={c} history brk:9", "dumpall", "rows"]
+            out.append(Case(f"c15-manyrefusals-{k}", ops, mode="http"))
         # the size limit: limit-1, limit (accepted), limit+1 (refused), one chunk and several
         big = []
         sizesb = [MAX, MAX + 1] if tier != "thorough" else [MAX - 1, MAX, MAX + 1]
@@ -400,6 +450,8 @@ class C15(HttpProp):
                 # nothing changed
                 before = {x[0].split()[1]: Dump(x[1]) for x in self._blk(trace, i, -1) if x[0].startswith("dump ")}
                 after = {x[0].split()[1]: Dump(x[1]) for x in self._blk(trace, i, +1) if x[0].startswith("dump ")}
+                if not before:
+                    continue          # this request was not placed between dumps
                 for c in before:
                     if c in after and before[c].ok and after[c].ok and before[c].key(False) != after[c].key(False, before[c].by_id.keys()):
                         fails.append(f"op {i} `{o}`: refused with {r.status} but client {c} changed")
@@ -437,6 +489,12 @@ class C20(HttpProp):
         per = 60
         for k in range(0, len(reqs), per):
             ops = state_prefix(random.Random(rng.getrandbits(32)), (1,))
+            # every third slice with an allow-list that does not name the client (refusals of every kind
+            # under a list), every third with one that does
+            if (k // per) % 3 == 1:
+                ops.append("allow 2,3")
+            elif (k // per) % 3 == 2:
+                ops.append("allow 1,2")
             ops += reqs[k:k + per]
             out.append(Case(f"c20-g{k // per}", ops, mode="http"))
         for k in range(sizes(tier, 90, 400)):
@@ -506,6 +564,13 @@ class C16(HttpProp):
                         f"http POST av hyph=latest:{c} {f}={c} history b:1,{c}", "dumpall",
                         f"http POST as hyph=latest:{c} {f}={c} snapshot b:2,{c}", "dumpall"]
             ops += [f"http GET snap - nonhex=1 absent e", "http GET snap - absent absent e"]
+            # every endpoint spelled with a percent-encoded unreserved character in its fixed part (the router
+            # works on the decoded path; so must whatever enforces the list)
+            for c in (1, 2, 3):
+                f = r.choice(VALID_FORMS)
+                ops += ["dumpall", f"http GET snapp - {f}={c} absent e", "dumpall", f"http GET gcvp hyph=nil {f}={c} absent e", "dumpall",
+                        f"http POST avp hyph=latest:{c} {f}={c} history b:1,{c}", "dumpall",
+                        f"http POST asp hyph=latest:{c} {f}={c} snapshot b:2,{c}", "dumpall"]
             # ids that are NEAR a listed id (one bit flipped, one half shared, bytes reversed) are other ids
             if al not in ("none", "-"):
                 L = int(al.split(",")[k % len(al.split(","))])
@@ -813,6 +878,13 @@ def refusal_cases(rng, n=6):
         for q in sel:
             ops += ["dumpall", "rows", q, "dumpall", "rows"]
         out.append(Case(f"c18-http-{k}", ops, {"http_refusals": True}, mode="http"))
+    # another connection holds the write lock for a few seconds while the request arrives (a backup, another
+    # instance): the request waits and is served — or, if it is refused, nothing is changed, neither now nor
+    # a moment later
+    for k, (ms, q) in enumerate([(2600, "http POST av hyph=latest:1 hyph=1 history b:6,6"), (2600, "http POST as hyph=latest:1 hyph=1 snapshot b:6,7")][:max(1, min(2, n))]):
+        r = random.Random(rng.getrandbits(32))
+        ops = state_prefix(r, (1, 2)) + ["dumpall", "rows", f"lockfor {ms}", q, "sleep 3500", "dumpall", "rows"]
+        out.append(Case(f"c18-http-lock-{k}", ops, {"http_refusals": True, "only": "sqlite"}, mode="http"))
     return out
 
 
